@@ -232,6 +232,11 @@ func (in *Interp) intrinsic(fr *Frame, name string, args []Value, fn *ssa.Functi
 	if strings.HasPrefix(name, svPath+".") {
 		return in.svCall(fr, name[len(svPath)+1:], args, fn)
 	}
+	if in.self != nil && strings.HasPrefix(name, "(*testing.") {
+		if r, ok := in.testingIntrinsic(fr, name, args); ok {
+			return r
+		}
+	}
 	if strings.Contains(name, "reflect.") {
 		if r, ok := in.reflectIntrinsic(fr, name, args); ok {
 			return r
@@ -663,6 +668,9 @@ func (in *Interp) intrinsic(fr *Frame, name string, args []Value, fn *ssa.Functi
 		st.fields[2].v = Ptr{}
 		return st
 	case repoPrefix + "/timelib.Strtotime":
+		if in.self != nil {
+			panic(pathAbort{"unsupported: timelib.Strtotime is C code behind cgo"})
+		}
 		in.note("stub: timelib.Strtotime (C library behind cgo) returns an arbitrary value")
 		return in.uninterp(name, SBV(64), args, types.Typ[types.Int64])
 	case "time.runtimeNano":
